@@ -99,6 +99,7 @@ func runC04(e *Env) {
 	}
 	rng := e.Rng.Fork()
 	frng := e.Rng.Fork().Fork() // the fragment-only generator's stream (c04frag.go)
+	funrng := e.Rng.Fork().Fork().Fork() // the function-fragment generator's stream (c04fun.go)
 	for i := 0; i < nProg; i++ {
 		r := rng.Fork()
 		o := GenOpts{MaxStmts: 3 + r.Intn(3), MaxDepth: 2 + r.Intn(3), Budget: 60 + r.Intn(200), Funcs: true, Closures: true,
@@ -106,6 +107,7 @@ func runC04(e *Env) {
 		p := GenProgram(r, o)
 		c04Program(e, p, fmt.Sprintf("gen#%d", i))
 		c04FragTie(e, p, frng)
+		c04FunTie(e, p, funrng)
 	}
 	c04Directed(e)
 	c04FragDeep(e)
